@@ -347,6 +347,26 @@ func checkContains(l *listFn) []sideIssue {
 			out = append(out, l.issue(r, "return-value", "returns %s", l.rs.src(r)))
 		}
 	}
+	// every element takes part in the membership test: an iteration may only be left early (continue, break) after the
+	// element has been compared with the item
+	if l.loop != nil {
+		ast.Inspect(l.loop.Body, func(n ast.Node) bool {
+			br, ok := n.(*ast.BranchStmt)
+			if !ok || (br.Tok != token.CONTINUE && br.Tok != token.BREAK) {
+				return true
+			}
+			tested := false
+			for _, g := range guardsOf(l.fn.Body, br) {
+				if eq, _ := l.eqTest(g.e, elem, item); eq {
+					tested = true
+				}
+			}
+			if !tested {
+				out = append(out, l.issue(br, "element-skipped", "leaves an iteration (%s) before the element has been compared with the item: an element that is skipped this way — for example a nil pointer — is never found, although it is Equal to a nil item", br.Tok))
+			}
+			return true
+		})
+	}
 	return out
 }
 
